@@ -235,6 +235,8 @@ def run(ctx):
     # second tie to the source (translator): name the broken equality if the build lost ExpandGenProofs
     import expand_tie
     corr.append(expand_tie.obligation())
+    import kernel_tie
+    corr.append(kernel_tie.obligation())
     return {"evaluations": dist["cli_runs"], "distinct_nontrivial": nontrivial, "rule": rule, "samples": samples,
             "corr": corr, "violations": vio, "dist": dist}
 
